@@ -339,6 +339,68 @@ func jobC09(c *rt.Ctx) {
 			}
 		}
 	}
+	// the same IN-CHUNK position in an earlier chunk: an ordinary invalid entry (wrong message, S + L, bad R)
+	// at position j of the first chunk and a small-order R (or key) with a satisfied cofactored equation at
+	// j + 64 and j + 128, every other entry honest: refused in default mode (a per-entry flag read without
+	// the chunk offset)
+	c.Require("same-slot-earlier-chunk")
+	for ji, j := range []int{0, 2, 31, 63} {
+		for ti := 0; ti < 8; ti += 1 {
+			for what := 0; what < 2; what++ {
+				if !c.Take() {
+					continue
+				}
+				c.Class("same-slot-earlier-chunk")
+				c.Distinct(fmt.Sprintf("sameslot %d %d %d", j, ti, what), true)
+				vs := vAll[(ji+ti)%len(vAll)]
+				n := 196
+				es := append([]triple{}, fillers(vs, n)...)
+				switch (ji + ti) % 3 {
+				case 0:
+					es[j] = triple{es[j].key, append(append([]byte{}, es[j].msg...), 1), es[j].sig}
+					if vs.v == ref.Ph {
+						es[j] = triple{es[j].key, es[(j+1)%n].msg, es[j].sig}
+					}
+				case 1:
+					S := ref.LE(es[j].sig[32:])
+					S.Add(S, ref.L)
+					es[j] = triple{es[j].key, es[j].msg, append(append([]byte{}, es[j].sig[:32]...), ref.ToLE(S, 32)...)}
+				default:
+					sg := append([]byte{}, es[j].sig...)
+					sg[5] ^= 4
+					es[j] = triple{es[j].key, es[j].msg, sg}
+				}
+				var so triple
+				if what == 0 {
+					so = mkTriple(a0, 0, 0, big.NewInt(0), ti, 0, msgOf(1, vs), vs) // small-order R
+				} else {
+					so = mkTriple(big.NewInt(0), ti, 0, big.NewInt(5), 0, 0, msgOf(1, vs), vs) // small-order key
+				}
+				es[j+64], es[j+128] = so, so
+				all, valid, err, pv := implBatch(es, vs, false, rt.NewRng(c.Seed, fmt.Sprint("sameslot", j, ti)))
+				c.Step(1)
+				wantJ, _ := modelVerify(es[j], vs, false)
+				wantSO, _ := modelVerify(so, vs, false)
+				bad := pv != nil || err != nil || len(valid) != n || all || wantSO
+				if !bad {
+					for i, v := range valid {
+						want := true
+						if i == j {
+							want = wantJ
+						}
+						if i == j+64 || i == j+128 {
+							want = wantSO
+						}
+						bad = bad || v != want
+					}
+				}
+				if bad {
+					c.Violation("C09 same-slot-earlier-chunk", fmt.Sprintf("batch of %d (%s, default mode): invalid entry at %d, small-order %s T%d at %d and %d: valid there = %v / %v, all=%v err=%v panic=%v; must be refused", n, vs, j, []string{"R", "key"}[what], ti, j+64, j+128, len(valid) == n && valid[j+64], len(valid) == n && valid[j+128], all, err, pv),
+						map[string]interface{}{"j": j, "torsion": ti, "what": []string{"R", "key"}[what], "variant": vs.String()})
+				}
+			}
+		}
+	}
 	// look-alikes under a FOLD: for every torsion encoding T, keys J = T with the same mask xor-ed into two
 	// bytes whose positions differ by a multiple of 4 (the xor of the 32- or 64-bit words of J and T is
 	// the same), and J = T with +m in one word and -m in another (the sum of the words is the same). J - a
